@@ -835,12 +835,12 @@ func c10JWTFinalizerScenario(r *simcore.Run) {
 	s := r.Src
 	kind := "jwt-finalizer"
 	cacheKind := simcore.Pick(s, cacheKinds, "cache-kind")
-	ttlChoices := []int{2, 4, 6, 9, 30, 300}
-	protoTTL := ttlChoices[s.Draw(6, "jwt-ttl")]
+	ttlChoices := []int{2, 4, 5, 6, 9, 10, 30, 300}
+	protoTTL := ttlChoices[s.Draw(len(ttlChoices), "jwt-ttl")]
 	ttlS := protoTTL
 	stepCfg := ""
 	if s.Draw(3, "jwt-ttl-override?") == 2 {
-		ttlS = ttlChoices[s.Draw(6, "jwt-ttl-override")]
+		ttlS = ttlChoices[s.Draw(len(ttlChoices), "jwt-ttl-override")]
 		stepCfg = fmt.Sprintf("\n      config:\n        ttl: %ds", ttlS)
 	}
 	keyName := simcore.Pick(s, []string{"ec256", "ec384", "rsa2048"}, "key")
